@@ -1,4 +1,5 @@
 import Cell2v.Lemmas.Directory
+import Cell2v.Lemmas.DirectorySys
 import Cell2v.Gen.C08Facts
 /-!
 C08 — the service directory always equals the current cluster membership.
@@ -165,10 +166,10 @@ empty responses and own state changes, every published list contains the node it
 with its own address and services. -/
 theorem self_always_present (self : Node) (ns : List Node) (ops : List POp) (hw : ∀ op ∈ ops, OpWf op) :
     ∀ pub ∈ (prun { self := self } (.listing ns :: ops)).2,
-      ∃ m ∈ pub, m.id = self.id ∧ m.host = self.member.host ∧ m.port = self.port ∧ m.services = self.services := by
+      ∃ m ∈ pub, m.id = self.id ∧ m.host = self.member.host ∧ m.port = toInt32 self.port ∧ m.services = self.services := by
   have key : ∀ (ops : List POp) (s : PState), PInv s → s.selfIn = true → (∀ op ∈ ops, OpWf op) →
       ∀ pub ∈ (prun s ops).2, ∃ m ∈ pub, m.id = s.self.id ∧ m.host = s.self.member.host ∧
-        m.port = s.self.port ∧ m.services = s.self.services := by
+        m.port = toInt32 s.self.port ∧ m.services = s.self.services := by
     intro ops
     induction ops with
     | nil => intro s _ _ _ pub hp; simp [prun] at hp
@@ -191,9 +192,9 @@ theorem self_always_present (self : Node) (ns : List Node) (ops : List POp) (hw 
           simp at hp
           subst hp
           rw [pstep_pub s op pub ho]
-          exact ⟨_, self_in_pub _ hi' hl', hid.1, hid.2.1, hid.2.2.1, hid.2.2.2⟩
+          exact ⟨_, self_in_pub _ hi' hl', hid.1, hid.2.1, congrArg toInt32 hid.2.2.1, hid.2.2.2⟩
       · obtain ⟨m, hm, h1, h2, h3, h4⟩ := ih _ hi' hl' (fun o ho => hw o (List.mem_cons_of_mem _ ho)) pub hp
-        exact ⟨m, hm, h1.trans hid.1, h2.trans hid.2.1, h3.trans hid.2.2.1, h4.trans hid.2.2.2⟩
+        exact ⟨m, hm, h1.trans hid.1, h2.trans hid.2.1, h3.trans (congrArg toInt32 hid.2.2.1), h4.trans hid.2.2.2⟩
   intro pub hp
   simp only [prun, List.mem_append] at hp
   have hi := pstep_inv { self := self } (.listing ns) (PInv.init self) trivial
@@ -202,6 +203,10 @@ theorem self_always_present (self : Node) (ns : List Node) (ops : List POp) (hw 
     subst hp
     exact ⟨self.member, self_in_pub _ hi rfl, rfl, rfl, rfl, rfl⟩
   · exact key ops _ hi rfl hw pub hp
+
+/-- a port that fits `int32` is published as it is (`Member.Port` is `int32(port)`) -/
+theorem port_in_range_unchanged (x : Int) (h : -2147483648 ≤ x ∧ x < 2147483648) : toInt32 x = x := by
+  unfold toInt32; omega
 
 /-- non-vacuity: a well-formed history that deletes the node's own key and echoes its registration -/
 example : ∀ op ∈ [POp.response [.del "c@n0", .put "c@n0" { (default : Node) with id := "c@n0" }], .setState 2, .response []],
@@ -517,6 +522,23 @@ theorem getter_facts_match_source :
   · decide
   · rfl
 
+/-- the queries applications actually issue — the helper functions of package app
+(`GetServicePID`, `GetWorkServicePID`, `GetFirstWorkService`, `RandGetWorkService`, `defaultRoute`,
+`Request`, `Notify`, …, whatever they are called) — each call exactly one directory getter,
+exactly once (transitively), outside any loop or function literal.  Facts regenerated from
+/repo on every run. -/
+theorem helper_queries_single_getter :
+    Cell2v.Gen.C08.helperQueries ≠ [] ∧
+    ∀ e ∈ Cell2v.Gen.C08.helperQueries, ∃ g ∈ getterNames, e.2 = [g] := by
+  decide
+
+/-- … hence whatever a helper computes from its getter's answer (first item, random item, the
+PID of the item, nil unless working, …) it computes from one completely built view -/
+theorem helper_query_sees_whole_view {β : Type} (f : Answer → β) (v0 : Dir) (pubs : List Dir) (k : Nat) (q : Query) :
+    ∃ v ∈ v0 :: pubs, f (readAt v0 pubs k q) = f (q.answer v) := by
+  obtain ⟨v, hv, e⟩ := read_sees_whole_view v0 pubs k q
+  exact ⟨v, hv, by rw [e]⟩
+
 def wItem : Item := { name := "g", node := "n", state := 1, pid := none }
 def wNew : Dir := { services := [("g", wItem)], working := [("gate", [wItem])] }
 
@@ -570,5 +592,321 @@ theorem initial_publish_before_watch :
       (e.2.takeWhile (· != "spawn-publisher")).contains "publish" = true ∧
       e.2.contains "spawn-publisher" = true := by
   decide
+
+/-! ## 6. the directory against the etcd store: the *current* membership
+
+`Sys` (Model/Directory.lean) puts the provider in front of the store it watches: writes by
+other nodes (and by etcd: lease expiry), the initial `Get`, the creation of the watch "from
+now" (the code passes no start revision), deliveries in arbitrary batches, a failed watch
+followed by a fresh one, own state changes. -/
+
+/-- **The directory is the current membership as long as no event is lost.**  Start
+(`StartMember` or `StartClient`) on any well-formed store with nothing written between the
+listing and the creation of the watch; then let the cluster do anything (registrations,
+re-registrations, deletions and lease expiries of any node including the node itself, the node's
+own registration and the revoke/re-PUT by which its keep-alive loop announces a state change),
+let the watch deliver in any batching, let the node change its own state.  At every moment
+the member map with the not yet delivered events applied is exactly the store (away from
+the node's own key), and once the watch has handed over everything the member map *is* the store; a member (not a
+client) holds its own object under its own id and publishes it. -/
+theorem directory_eq_store_when_no_event_lost (self : Node) (ha : self.alive = true) (st : AL Node) (hs : StoreWf st) (client : Bool)
+    (ops : List SOp) (hl : ∀ op ∈ ops, Lossless op) :
+    let s := srun { store := st, p := { self := self } } (.fetch client :: .openWatch :: ops)
+    (∀ k, k ≠ self.id → implied self.id (look s.p.members) s.pending k = look s.store k) ∧
+    (∀ k, k ≠ self.id → look (sstep s (.deliver s.pending.length)).1.p.members k = look s.store k) ∧
+    (s.pending = [] → ∀ k, k ≠ self.id → look s.p.members k = look s.store k) ∧
+    (client = false → look s.p.members self.id = some s.p.self ∧ s.p.self.member ∈ publish s.p.members) := by
+  intro s
+  have e : s = srun (srun { store := st, p := { self := self } } [.fetch client, .openWatch]) ops :=
+    srun_append _ [.fetch client, .openWatch] ops
+  have hi : SInv s := by rw [e]; exact srun_inv ops _ (start_inv self ha st hs client) hl
+  have hid : s.p.self.id = self.id := srun_self_id _ _
+  have h1 : ∀ k, k ≠ self.id → implied self.id (look s.p.members) s.pending k = look s.store k := by
+    intro k hk
+    have := hi.sync k (by rw [hid]; exact hk)
+    rwa [hid] at this
+  refine ⟨h1, ?_, ?_, ?_⟩
+  · intro k hk
+    simp only [sstep, hi.watching, if_true, List.take_length]
+    rw [pstep_response_look, hid]
+    exact h1 k hk
+  · intro hp k hk
+    have := h1 k hk
+    rwa [hp] at this
+  · intro hc
+    subst hc
+    have hin : s.p.selfIn = true := by rw [e]; exact srun_selfIn ops _ (start_inv self ha st hs false) rfl hl
+    have := hi.pinv.selfAt hin
+    rw [hid] at this
+    exact ⟨this, self_in_pub _ hi.pinv hin⟩
+
+/-- **The directory equals the current cluster membership** (end to end): under the hypotheses of
+`directory_eq_store_when_no_event_lost`, once the watch has handed over everything, the per-type
+and working lists of the directory a member builds from its publication are exactly (up to the
+order of Go's map iteration) the services of the nodes registered in the store right now plus
+its own, each resolved to its node's address. -/
+theorem directory_lists_current_membership (self : Node) (ha : self.alive = true) (st : AL Node) (hs : StoreWf st)
+    (ops : List SOp) (hl : ∀ op ∈ ops, Lossless op) (t : String) :
+    let s := srun { store := st, p := { self := self } } (.fetch false :: .openWatch :: ops)
+    s.pending = [] →
+    (((makeMembers (publish s.p.members)).getServiceList t).getD []).Perm
+      (specTypeList (publish (AL.set s.store self.id s.p.self)) t) ∧
+    (((makeMembers (publish s.p.members)).getWorkServiceList t).getD []).Perm
+      (specWorkList (publish (AL.set s.store self.id s.p.self)) t) := by
+  intro s hp
+  have e : s = srun (srun { store := st, p := { self := self } } [.fetch false, .openWatch]) ops :=
+    srun_append _ [.fetch false, .openWatch] ops
+  have hi : SInv s := by rw [e]; exact srun_inv ops _ (start_inv self ha st hs false) hl
+  have hid : s.p.self.id = self.id := srun_self_id _ _
+  obtain ⟨_, _, h3, h4⟩ := directory_eq_store_when_no_event_lost self ha st hs false ops hl
+  have hself := (h4 rfl).1
+  have hlook : look s.p.members = look (AL.set s.store self.id s.p.self) := by
+    funext k
+    by_cases hk : k = self.id
+    · subst hk; simp only [look]; rw [AL.get_set_same]; exact hself
+    · simp only [look]; rw [AL.get_set_ne _ _ hk]; exact h3 hp k hk
+  have hn2 : NoDupKeys (AL.set s.store self.id s.p.self) := hi.store.nodup.set _ _
+  have hk2 : Keyed (AL.set s.store self.id s.p.self) := by rw [← hid]; exact hi.store.keyed.set s.p.self
+  have hperm := publish_perm _ _ hi.pinv.nodup hn2 hlook
+  have hd1 := published_ids_distinct _ hi.pinv.nodup hi.pinv.keyed
+  have hd2 := published_ids_distinct _ hn2 hk2
+  have hf := directory_is_function_of_member_set _ _ hperm hd1 t
+  constructor
+  · rw [← (typeList_eq_spec _ hd2 t).1]; exact hf.1
+  · rw [← (workList_eq_spec _ t).1]; exact hf.2.1
+
+/-- non-vacuity: a store with one peer; the peer re-registers, expires, the node's own
+registration is echoed, delivered in two batches, the node changes its state -/
+example : StoreWf [("x", { (default : Node) with id := "x", alive := true })] ∧
+    ∀ op ∈ [SOp.write (.put "x" { (default : Node) with id := "x", alive := true }), .write (.del "x"),
+        .write (.put "self" { (default : Node) with id := "self", alive := true }), .deliver 1, .setState 2, .deliver 5,
+        .register, .kaTick],
+      Lossless op := by
+  constructor
+  · refine ⟨by simp [NoDupKeys, AL.keys], ?_, ?_⟩
+    · intro k v h
+      simp only [AL.get_cons, AL.get_nil] at h
+      split at h
+      · rename_i e; simp at h; subst h; exact e
+      · simp at h
+    · intro k v h
+      simp only [AL.get_cons, AL.get_nil] at h
+      split at h
+      · simp at h; subst h; rfl
+      · simp at h
+  · intro op h
+    simp at h
+    rcases h with h | h | h | h | h | h | h | h <;> subst h <;> simp [Lossless, WrWf]
+
+/-- **A lost event is never repaired.**  If the member map and the store disagree about a
+key (other than the node's own) and no event about that key is pending, they disagree for
+ever — through every delivery, failed watch, fresh watch and state change — until some node
+writes that very key again.  (Nothing in the provider re-lists.) -/
+theorem lost_event_is_never_repaired (s : Sys) (k : String) (hk : k ≠ s.p.self.id)
+    (hp : ∀ e ∈ s.pending, e.key ≠ k) (hd : look s.p.members k ≠ look s.store k)
+    (ops : List SOp) (ho : ∀ op ∈ ops, ¬ Touches k op) :
+    look (srun s ops).p.members k = look s.p.members k ∧ look (srun s ops).store k = look s.store k ∧
+    look (srun s ops).p.members k ≠ look (srun s ops).store k := by
+  obtain ⟨h1, h2⟩ := srun_frozen ops k s hk hp ho
+  exact ⟨h1, h2, by rw [h1, h2]; exact hd⟩
+
+def wSelf : Node := { id := "self", host := "h0", addr := "h0", port := 0, services := [], alive := true, state := 1 }
+
+/-- **Suspected defect (start-up gap).**  `StartMember`: `Get`, *then* a peer registers, then
+`client.Watch` without a start revision, own registration, everything delivered: the peer is in
+the store but not in the directory, and no event is pending that would add it. -/
+theorem registration_between_listing_and_watch_is_lost :
+    let s := srun { store := [], p := { self := wSelf } }
+      [.fetch false, .write (.put "x" wNode), .openWatch, .register, .deliver 2]
+    look s.p.members "x" = none ∧ look s.store "x" = some wNode ∧ s.pending = [] := by
+  simp [srun, sstep, writeSys, storeStep, pstep, respond, handleWatchResponse, chStep, updateNodesWithChanges,
+    updateNodesWithSelf, updateNodes, fetched, look, wNode, wSelf, AL.set, AL.erase, AL.get]
+
+/-- the same history with the watch created at the listing's revision (no write in between)
+shows the peer -/
+theorem registration_after_watch_is_seen :
+    let s := srun { store := [], p := { self := wSelf } }
+      [.fetch false, .openWatch, .write (.put "x" wNode), .register, .deliver 3]
+    look s.p.members "x" = some wNode ∧ look s.store "x" = some wNode := by
+  simp [srun, sstep, writeSys, storeStep, pstep, respond, handleWatchResponse, chStep, updateNodesWithChanges, applyChange,
+    updateNodesWithSelf, updateNodes, fetched, look, wNode, wSelf, AL.set, AL.erase, AL.get]
+
+/-- **Suspected defect (failed watch).**  A peer's lease expires while the watch fails
+(compaction / cancelled stream): `_keepWatching` returns, the loop opens a fresh watch "from
+now", the DELETE is never delivered and the dead peer stays in the directory. -/
+theorem failed_watch_loses_pending_delete :
+    let s := srun { store := [("x", wNode)], p := { self := wSelf } }
+      [.fetch false, .openWatch, .write (.del "x"), .fail, .deliver 0]
+    look s.p.members "x" = some wNode ∧ look s.store "x" = none ∧ s.pending = [] ∧ s.watches = 2 := by
+  simp [srun, sstep, writeSys, storeStep, pstep, respond, updateNodesWithSelf, updateNodes, fetched, look, wNode, wSelf,
+    AL.set, AL.erase, AL.get]
+
+/-- **An own state change reaches the node's own directory and the store** (hence every other
+node): `UpdateClusterState` publishes nothing by itself; the next keep-alive answer makes the
+loop revoke the lease and PUT the registration again; the echo of that — events about the node
+itself, all skipped — is a non-empty response, and its publication shows the new state. -/
+theorem own_state_change_is_published (s : Sys) (hi : SInv s) (hin : s.p.selfIn = true)
+    (hr : s.registered = true) (st : Int) :
+    let s1 := srun s [.setState st, .kaTick]
+    look s1.store s.p.self.id = some { s.p.self with state := st } ∧
+    ∃ pub, (sstep s1 (.deliver s1.pending.length)).2 = some pub ∧ ({ s.p.self with state := st } : Node).member ∈ pub := by
+  intro s1
+  have hl : ∀ op ∈ [SOp.setState st, .kaTick], Lossless op := by
+    intro op h; simp at h; rcases h with h | h <;> subst h <;> trivial
+  have hi1 : SInv s1 := srun_inv _ s hi hl
+  have hin1 : s1.p.selfIn = true := srun_selfIn _ s hi hin hl
+  have hself : s1.p.self = { s.p.self with state := st } := by
+    simp [s1, srun, sstep, hr, pstep, setSelfState, writeSys]
+  have hstore : look s1.store s.p.self.id = some { s.p.self with state := st } := by
+    simp [s1, srun, sstep, hr, pstep, setSelfState, writeSys, storeStep, look, AL.get_set_same]
+  have hne : s1.pending ≠ [] := by
+    simp [s1, srun, sstep, hr, pstep, setSelfState, writeSys, storeStep, hi.watching]
+  refine ⟨hstore, ?_⟩
+  have hwf : OpWf (.response (s1.pending.take s1.pending.length)) := fun e he => hi1.pend e (List.mem_of_mem_take he)
+  have hnb : ¬ (s1.pending.take s1.pending.length).isEmpty = true := by simpa using hne
+  have hp : (pstep s1.p (.response (s1.pending.take s1.pending.length))).2 =
+      some (publish (pstep s1.p (.response (s1.pending.take s1.pending.length))).1.members) := by
+    simp only [pstep]; rw [if_neg hnb]
+  refine ⟨publish (pstep s1.p (.response (s1.pending.take s1.pending.length))).1.members, ?_, ?_⟩
+  · simp only [sstep, hi1.watching, if_true]; exact hp
+  · have := (self_published_with_current_state s1.p _ hi1.pinv hin1 hwf _ hp).1
+    have hs : (pstep s1.p (.response (s1.pending.take s1.pending.length))).1.self = s1.p.self := by
+      simp only [pstep]; split <;> rfl
+    rw [hs, hself] at this
+    exact this
+
+/-- **The node itself is always present — through lost events too.**  After `StartMember`'s
+listing, in every state the system can reach by writes of any node (registrations stored under
+their own ids), gaps, deliveries in any batching, failed and re-opened watches, state changes,
+keep-alive revokes and re-listings, every publication contains the node's own current entry. -/
+theorem self_present_through_lost_events (self : Node) (st : AL Node) (ops : List SOp)
+    (hk : ∀ op ∈ ops, OpKeyed op) (op : SOp) (ho : OpKeyed op) (pub : List Member) :
+    let s := srun { store := st, p := { self := self } } (.fetch false :: ops)
+    (sstep s op).2 = some pub → (sstep s op).1.p.self.member ∈ pub ∧ (sstep s op).1.p.self.id = self.id := by
+  intro s h
+  have h0 : SelfInv (sstep { store := st, p := { self := self } } (.fetch false)).1 := by
+    simp only [sstep, Bool.false_eq_true, if_false]
+    exact ⟨pstep_inv _ _ (PInv.init self) trivial, rfl, fun e he => by simp at he⟩
+  have hi : SelfInv s := srun_selfInv ops _ h0 hk
+  have hi' := sstep_selfInv s op hi ho
+  refine ⟨?_, ?_⟩
+  · rw [sstep_pub s op pub h ho]
+    exact self_in_pub _ hi'.pinv hi'.selfIn
+  · rw [sstep_self_id]; exact srun_self_id _ _
+
+/-- non-vacuity: a run that loses events on both ways and still publishes -/
+example : ∀ op ∈ [SOp.write (.put "x" wNode), .openWatch, .register, .write (.del "x"), .fail, .setState 2, .kaTick, .deliver 3],
+    OpKeyed op := by
+  intro op h
+  simp at h
+  rcases h with h | h | h | h | h | h | h | h <;> subst h <;> simp [OpKeyed, wNode]
+
+/-- the declared exclusion, as a witness: a *foreign* registration stored under the node's own
+key but carrying another id (never written by cell2) replaces the node's own entry -/
+theorem foreign_registration_under_own_key_evicts_self :
+    look (foldBatch "self" [("self", wSelf)] [.put "self" wNode]) "self" = some wNode := by
+  rw [look_foldBatch]; simp [implied, seqStep, look, wNode, FM.upd, AL.get]
+
+/-! ## 7. further consequences -/
+
+/-- `directory_is_function_of_history` with its hypothesis on the outcome discharged: a keyed
+start map and well-formed events suffice -/
+theorem directory_is_function_of_history_wf (selfId : String) (m : AL Node) (hm : NoDupKeys m) (hk : Keyed m)
+    (bs bs' : List (List Ev)) (h : bs.flatten = bs'.flatten) (hw : ∀ e ∈ bs.flatten, EvWf e) (t : String) :
+    (((makeMembers (publish (bs.foldl (foldBatch selfId) m))).getServiceList t).getD []).Perm
+      (((makeMembers (publish (bs'.foldl (foldBatch selfId) m))).getServiceList t).getD []) ∧
+    (((makeMembers (publish (bs.foldl (foldBatch selfId) m))).getWorkServiceList t).getD []).Perm
+      (((makeMembers (publish (bs'.foldl (foldBatch selfId) m))).getWorkServiceList t).getD []) := by
+  have hk' : KeyedF (look (bs.foldl (foldBatch selfId) m)) := by
+    rw [fold_eq_implied]; exact implied_keyedF selfId _ hw (look m) hk
+  exact directory_is_function_of_history selfId m hm bs bs' h hk' t
+
+/-- **The initial listing is the same function of registrations as the watch fold**: listing
+live registrations of other nodes is applying their PUT events one at a time -/
+theorem listing_eq_implied_registrations (selfId : String) (ns : List Node)
+    (ha : ∀ n ∈ ns, n.alive = true ∧ n.id ≠ selfId) : ∀ m : AL Node,
+    look (updateNodes m ns) = implied selfId (look m) (ns.map (fun n => Ev.put n.id n)) := by
+  induction ns with
+  | nil => intro m; rfl
+  | cons n ns ih =>
+    intro m
+    have h1 : look (AL.set m n.id n) = seqStep selfId (look m) (.put n.id n) := by
+      obtain ⟨hal, hid⟩ := ha n List.mem_cons_self
+      funext j
+      simp [look, AL.get_set, seqStep, hal, hid, FM.upd]
+    simp only [updateNodes, List.foldl_cons, List.map_cons, implied] at ih ⊢
+    rw [ih (fun x hx => ha x (List.mem_cons_of_mem _ hx)), h1]
+
+/-- … except for a registration that says `alive=false` (never written by cell2 itself:
+`Serialize` always writes `Alive=true`): the listing keeps it, the watch fold drops it -/
+theorem dead_listed_registration_stays :
+    look (updateNodes [] [{ wNode with alive := false }]) "x" = some { wNode with alive := false } ∧
+    implied "self" (look []) [.put "x" { wNode with alive := false }] "x" = none := by
+  simp [updateNodes, look, implied, seqStep, wNode, FM.upd, AL.set, AL.erase, AL.get]
+
+/-- **What happens to a key depends only on the events of that key**, in order -/
+theorem implied_depends_only_on_own_key_events (selfId : String) (m : FM) (evs : List Ev) (k : String) :
+    implied selfId m evs k = implied selfId m (evs.filter (fun e => e.key == k)) k := by
+  rw [implied_pointwise, implied_pointwise, foldl_ptStep_filter]
+
+/-- **The last event of a key decides**, whatever follows about other keys and however the
+history is batched: a live registration of another node is listed, a dead one or a DELETE is not -/
+theorem key_last_event_decides (selfId : String) (m : AL Node) (h t : List Ev) (k : String)
+    (ht : ∀ e ∈ t, e.key ≠ k) (bs : List (List Ev)) :
+    (∀ n : Node, n.id ≠ selfId → bs.flatten = h ++ .put k n :: t →
+        look (bs.foldl (foldBatch selfId) m) k = if n.alive then some n else none) ∧
+    (bs.flatten = h ++ .del k :: t → (∀ v, implied selfId (look m) h k = some v → v.id ≠ selfId) →
+        look (bs.foldl (foldBatch selfId) m) k = none) := by
+  constructor
+  · intro n hn hb
+    rw [fold_eq_implied, hb, implied_append, show (Ev.put k n :: t) = [Ev.put k n] ++ t from rfl, implied_append,
+      implied_untouched selfId t k ht]
+    cases ha : n.alive <;> simp [implied, seqStep, hn, ha, FM.upd]
+  · intro hb hv
+    rw [fold_eq_implied, hb, implied_append, show (Ev.del k :: t) = [Ev.del k] ++ t from rfl, implied_append,
+      implied_untouched selfId t k ht]
+    simp only [implied, List.foldl_cons, List.foldl_nil, seqStep]
+    cases hk : List.foldl (seqStep selfId) (look m) h k with
+    | none => simpa using hk
+    | some v =>
+      have := hv v hk
+      simp [this, FM.upd]
+
+/-- **Every listed service resolves to the address of a node that lists it** — without the
+uniqueness convention: when a name is listed by several members (e.g. while a service moves
+and the old node's lease is still alive) `GetService` answers with one of them -/
+theorem getService_resolves_to_a_lister (ms : List Member) (hd : DistinctIds ms)
+    (m : Member) (hm : m ∈ ms) (s t n : String) (hs : s ∈ m.services) (hsp : splitName s = some (t, n)) :
+    ∃ m' ∈ ms, ∃ s' ∈ m'.services, ∃ t', splitName s' = some (t', n) ∧
+      (makeMembers ms).getService n = some { name := n, node := m'.id, state := m'.state, pid := some (address m', n) } := by
+  have hit : ({ name := n, node := m.id, state := m.state, pid := some (address m, n) } : Item) ∈ specTypeList ms t :=
+    (mem_specTypeList ms t _).mpr ⟨m, hm, s, hs, n, hsp, rfl⟩
+  obtain ⟨it', h'⟩ := getService_complete ms hd t _ hit
+  obtain ⟨hn, t', ht'⟩ := getService_sound ms hd _ it' h'
+  obtain ⟨m', hm', s', hs', n', hsp', rfl⟩ := (mem_specTypeList ms t' it').mp ht'
+  simp only at hn h'
+  subst hn
+  exact ⟨m', hm', s', hs', t', hsp', h'⟩
+
+/-- **Cluster disabled** (`makeSelfCluster`): the directory built from `BuildSelfClusterTopology`
+lists exactly the node's own well-formed services, all of them working, at the node's address -/
+theorem self_cluster_lists_own_services (self : Node) (t : String) :
+    ((makeMembers (selfTopology self)).getServiceList t).getD [] = specTypeList (selfTopology self) t ∧
+    ((makeMembers (selfTopology self)).getWorkServiceList t).getD [] =
+      (specTypeList (selfTopology self) t).map (fun it => { it with pid := none }) := by
+  refine ⟨(typeList_eq_spec _ (by simp [DistinctIds, selfTopology]) t).1, ?_⟩
+  rw [(workList_eq_spec _ t).1]
+  simp [specWorkList, selfTopology, isWork, workingState]
+
+/-- the suspected defect recorded in the check's assumptions, as a theorem of the model: every
+item of every working list has a nil PID, so `GetFirstWorkService` / `RandGetWorkService`
+(which return `Items[i].PID` of `GetWorkServiceList`) can only return nil -/
+theorem working_items_have_no_pid (ms : List Member) (t : String) :
+    ∀ it ∈ ((makeMembers ms).getWorkServiceList t).getD [], it.pid = none := by
+  rw [(workList_eq_spec ms t).1]
+  intro it hit
+  simp only [specWorkList, List.mem_map] at hit
+  obtain ⟨x, _, rfl⟩ := hit
+  rfl
 
 end Cell2v.Props.C08
